@@ -83,6 +83,9 @@ class Acc:
         self.evaluations += 1
         if key is not None and nontrivial:
             self.keys.add(h64(key))
+        if outcome is None and isinstance(key, tuple) and key and \
+                isinstance(key[0], str):
+            outcome = key[0]
         if outcome is not None:
             self.outcomes[outcome] += 1
 
@@ -155,15 +158,17 @@ class Ctx:
         return self.tier == 'quick'
 
     def pool(self):
+        # ProcessPoolExecutor workers are not daemonic, so worlds may start
+        # their own (vivarium ParallelProcess) child processes.
         if self._pool is None:
+            import concurrent.futures as cf
             ctx = multiprocessing.get_context('fork')
-            self._pool = ctx.Pool(self.nproc)
+            self._pool = cf.ProcessPoolExecutor(self.nproc, mp_context=ctx)
         return self._pool
 
     def close(self):
         if self._pool is not None:
-            self._pool.terminate()
-            self._pool.join()
+            self._pool.shutdown(wait=True, cancel_futures=True)
             self._pool = None
 
     def map(self, fn, jobs, acc=None, chunk=None, serial=False):
@@ -184,9 +189,11 @@ class Ctx:
             for c in chunks:
                 acc.merge(_run_chunk((fn, c)))
             return acc
-        for part in self.pool().imap_unordered(
-                _run_chunk, [(fn, c) for c in chunks]):
-            acc.merge(part)
+        import concurrent.futures as cf
+        pool = self.pool()
+        futs = [pool.submit(_run_chunk, (fn, c)) for c in chunks]
+        for fut in cf.as_completed(futs):
+            acc.merge(fut.result())
         return acc
 
 
@@ -296,3 +303,13 @@ def validate_evidence(ev):
             jsonschema.validate(json.loads(jdump(ev)), schema)
             return True
     return None
+
+
+def preload_forkserver():
+    """vivarium's ParallelProcess uses the forkserver start method; have
+    the fork server import vivarium and the probe module once, so that a
+    worker life-cycle costs milliseconds instead of seconds."""
+    import sys
+    if VERIF not in sys.path:
+        sys.path.insert(0, VERIF)
+    multiprocessing.set_forkserver_preload(['vivarium', 'vmc.probes'])
